@@ -41,6 +41,17 @@ BOOL_TABLE = [("True", True), ("False", False), ("yes", True), ("no", False), ("
               ("1", True), ("0", False), ("true", True), ("FALSE", False), ("Yes", True), ("oFf", False)]
 
 QCHARS = ["'", '"', "\\", "\n", " ", "$", "#", "{", "}", ";", "=", "a", "b", "c", "é", "!", "."]
+# every character that is whitespace for the tokenizer (str.isspace) but does not end a line: form feed (page break),
+# vertical tab, FS/GS/RS/US, NEL, NBSP, the Unicode spaces, LS/PS ...  Blank and TAB are the ordinary layout; a carriage
+# return is written only as part of a CR LF line end (a lone CR has no agreed meaning as a line).
+# Emitted only on request (`exotic=` of TreeGen / Renderer); they never advance the renderer's line count.
+EXOTIC_WS = [chr(i) for i in range(0x3001) if chr(i).isspace() and chr(i) not in " \t\n\r"]
+# the realistic ones first: a page break, and what str.splitlines() would (wrongly, here) take for a line boundary
+EXOTIC_COMMON = ["\x0c", "\x0c", "\x0b", "\x1c", "\x1d", "\x1e", "\x85", "\u2028", "\u2029", "\xa0", "\x1f"]
+
+
+def exotic_char(rng):
+    return rng.choice(EXOTIC_COMMON if rng.random() < 0.7 else EXOTIC_WS)
 PLAIN = "abcxyz019_.-+*/,:()[]<>@%&|^~?="
 
 
@@ -49,8 +60,9 @@ def pyquote(q, s):
 
 
 class TreeGen:
-    def __init__(self, rng, depth=3, attrs=True, quotes_in_comments=False, multiline=True, experts=False):
+    def __init__(self, rng, depth=3, attrs=True, quotes_in_comments=False, multiline=True, experts=False, exotic=0.0):
         self.rng = rng
+        self.exotic = exotic  # probability that a quoted word carries non-newline exotic whitespace in its value
         self.depth = depth
         self.attrs = attrs
         self.multiline = multiline
@@ -70,6 +82,10 @@ class TreeGen:
         s = "".join(r.choice(QCHARS) for _ in range(r.choice([0, 1, 2, 3, 5, 8, 12])))
         if not self.multiline:
             s = s.replace("\n", " ")
+        if self.exotic and r.random() < self.exotic:
+            for _ in range(r.choice([1, 1, 2])):
+                k = r.randint(0, len(s))
+                s = s[:k] + exotic_char(r) + s[k:]
         return {"v": s, "q": q}
 
     def words(self):
@@ -185,8 +201,9 @@ class TreeGen:
 class Renderer:
     """text of an abstract tree under random layout choices; records `_line` of every token"""
 
-    def __init__(self, rng, layout=1.0, comment_quotes=False, off_regions=True):
+    def __init__(self, rng, layout=1.0, comment_quotes=False, off_regions=True, exotic=0.0):
         self.rng = rng
+        self.exotic = exotic  # probability, per layout decision, of whitespace other than blank / TAB / LF (EXOTIC_WS, CR LF)
         self.p = layout
         self.comment_quotes = comment_quotes
         self.off_regions = off_regions
@@ -204,8 +221,22 @@ class Renderer:
     def fancy(self):
         return self.rng.random() < self.p
 
+    def odd(self):
+        """True when this layout decision is to use exotic whitespace (draws nothing when the option is off)"""
+        return bool(self.exotic) and self.rng.random() < self.exotic
+
+    def xws(self, lo=1):
+        """a run of whitespace that contains no line feed but at least `lo` exotic characters"""
+        r = self.rng
+        self.features.add("exotic_ws")
+        s = "".join(exotic_char(r) for _ in range(r.choice([lo, lo, lo + 1])))
+        return r.choice(["", " ", "\t"]) + s + r.choice(["", "", " "])
+
     def sp(self, must=False):
         r = self.rng
+        if self.odd():
+            self.emit(self.xws())
+            return
         if not self.fancy():
             self.emit(" ")
             return
@@ -220,6 +251,9 @@ class Renderer:
         if self.comment_quotes:
             ws.append(r.choice(["'multi", '"open', "'''", "'x'"]))
             self.features.add("comment_with_quote")
+        if self.odd():
+            ws.insert(r.randint(0, len(ws)), self.xws().strip(" \t") + r.choice(["", "x = 1", "}", "it's"]))
+            self.features.add("exotic_ws_in_comment")
         t = " ".join(ws)
         if t.endswith("\\"):
             t += "."
@@ -228,6 +262,24 @@ class Renderer:
     def terminator(self, in_scope, last):
         """end of a value: newline / ; / comment / (nothing before a closing brace or EOF)"""
         r = self.rng
+        if self.odd():
+            k = r.random()
+            if k < 0.3:
+                # a page break and its kin: a line of its own holding only exotic whitespace
+                self.features.add("exotic_ws_line")
+                self.emit("\n" + self.xws() + "\n")
+            elif k < 0.5:
+                self.emit(self.xws() + "\n")
+            elif k < 0.7:
+                self.features.add("crlf")
+                self.emit(r.choice(["\r\n", " \r\n", "\r\n\r\n", "\r\n  \r\n"]))
+            elif k < 0.85:
+                self.features.add("crlf")
+                self.emit(" # " + self.comment_text() + "\r\n")
+            else:
+                self.features.add("exotic_ws_line")
+                self.emit("\n#" + self.comment_text() + "\n" + self.xws() + "\n\n")
+            return
         if not self.fancy():
             self.emit("\n")
             return
@@ -292,6 +344,8 @@ class Renderer:
                     # an unquoted word cannot follow a multi-line quoted word: quote it instead
                     # (callers avoid this; kept for safety)
                     raise ValueError("unrenderable word sequence")
+                elif self.odd():
+                    self.emit(self.xws())
                 else:
                     self.emit(r.choice([" ", " ", "  ", "\t"]) if self.fancy() else " ")
             w["_line"] = self.line()
@@ -319,6 +373,15 @@ class Renderer:
         junk = r.choice(["junk { ' \n", "a = 'unclosed\n} } ;\n", "\n\n", "x\n#phil\nfoo\n", "#philx __ON__\n", " #phil __ON__\n",
                          "#phil __ON__ x\n"])
         closer = r.choice(["#phil __ON__\n", "#phil  __ON__  \n", "#phil\n__ON__\n", "#phil \n\n  __ON__\n"])
+        if self.odd():
+            # switched-off content of any kind: exotic whitespace on a line of its own, in the middle and at the end of a line
+            self.features.add("exotic_ws_in_off_region")
+            junk = r.choice([self.xws() + "\n", "any { \" " + self.xws() + "\n", "p = 1" + self.xws() + "q = '\n", "\r\n"]) + junk
+        if self.odd():
+            # ... and between / after the words of the line that switches parsing on again
+            self.features.add("exotic_ws_in_off_region")
+            closer = r.choice(["#phil" + self.xws() + "__ON__\n", "#phil __ON__" + self.xws() + "\n", "#phil __ON__\r\n",
+                               "#phil" + self.xws() + "\n" + self.xws() + "__ON__" + self.xws() + "\n"])
         self.emit("#phil __OFF__\n" + junk + closer)
 
     def node(self, n, indent, in_scope, last):
